@@ -9,6 +9,7 @@ package agent
 
 import (
 	"context"
+	"encoding/binary"
 	"sort"
 	"sync"
 	"time"
@@ -81,7 +82,14 @@ func (v *VerifC01Agent) Close() {
 // MakeCbd frames a serialized SourceBucket3 the way preProcess does.
 func VerifC01MakeCbd(t uint32, sb *tlstatshouse.SourceBucket3) VerifC01Cbd {
 	raw := sb.WriteTL1Boxed(nil)
-	return VerifC01Cbd{Time: t, HasData: true, data: compress.CompressAndFrame(raw)}
+	// the "does not compress" form of compress.CompressAndFrame (original size, then the bytes as they are): its length
+	// does not depend on which byte runs lz4 happens to find in the timestamp, so every generated second has one size
+	data := binary.LittleEndian.AppendUint32(nil, uint32(len(raw)))
+	data = append(data, raw...)
+	if o, d, err := compress.DeFrame(data); err != nil || int(o) != len(d) {
+		panic("verif: stored frame is not what compress.Decompress takes as uncompressed")
+	}
+	return VerifC01Cbd{Time: t, HasData: true, data: data}
 }
 
 // SendToSenders = real sendToSenders (nobody reads BucketsToSend here, so this is its "channel full" path).
